@@ -11,7 +11,7 @@ use version_lsp::parser::types::RegistryType;
 use version_lsp::version::cache::{Cache, verif_hooks};
 use version_lsp::version::checker::VersionStorer;
 
-fn reg_of(s: &str) -> RegistryType {
+pub fn reg_of(s: &str) -> RegistryType {
     s.parse::<RegistryType>().unwrap()
 }
 
